@@ -5,7 +5,7 @@
 
 Require Extraction.
 Require Import ExtrOcamlBasic.
-From Sodg Require Import Base Text Hex Label Sodg Esort Print Export Slice Merge Serial Script.
+From Sodg Require Import Base Text Hex Label Sodg Esort Print Export Slice Merge Serial Script Spec SpecDec.
 
 Extraction Language OCaml.
 
@@ -29,4 +29,6 @@ Extraction "Model.ml"
   (* byte format *)
   encode decode
   (* script *)
-  op_deploy commands.
+  op_deploy commands
+  (* reference model *)
+  sinit sstep preb s_keys.
